@@ -20,7 +20,8 @@ HARNESS = os.path.join(VERIF, "harness")
 VH = os.path.join(HARNESS, "target", "debug", "vh")
 TLA_JAR = "/opt/veriftools/tla/tla2tools.jar"
 TLA_DEPS = "/opt/veriftools/tla/CommunityModules-deps.jar"
-PRIM = os.path.join(VERIF, "bin", "prim")
+PRIM = os.path.join(VERIF, "bin", "primc")
+PRIM_SERVER = os.path.join(VERIF, "bin", "prim")
 
 
 class ToolError(Exception):
@@ -164,7 +165,15 @@ def tlc(spec_dir, module, cfg=None, workers=4, env=None, timeout=900, simulate=N
     cmd.append(module + ".tla")
     e = dict(os.environ)
     e["VERIF_PRIM"] = PRIM
-    e["VERIF_WORK"] = workdir
+    e["VERIF_WORK"] = meta
+    # persistent primitive server for this run (IOExec then costs a shell start instead of an interpreter start)
+    server = None
+    try:
+        os.mkfifo(os.path.join(meta, "prim.req"))
+        os.mkfifo(os.path.join(meta, "prim.resp"))
+        server = subprocess.Popen([PRIM_SERVER, "--serve", meta], stdout=subprocess.DEVNULL, stderr=subprocess.DEVNULL)
+    except OSError:
+        server = None
     if env:
         e.update({k: str(v) for k, v in env.items()})
     res = TlcResult()
@@ -192,6 +201,9 @@ def tlc(spec_dir, module, cfg=None, workers=4, env=None, timeout=900, simulate=N
             res.timed_out = True
             text = ex.stdout.decode() if isinstance(ex.stdout, bytes) else (ex.stdout or "")
     res.wall = time.time() - t0
+    if server is not None:
+        server.kill()
+        server.wait()
     _parse_tlc_output(res, text)
     shutil.rmtree(meta, ignore_errors=True)
     return res
